@@ -161,7 +161,16 @@ func main() {
 			emit(rep)
 			os.Exit(2)
 		}
-		gen(ctx)
+		func() {
+			defer func() {
+				if r := recover(); r != nil {
+					ctx.add(Case{Kind: "generator-panic", Nontrivial: true,
+						Oracle: fmt.Sprintf("the real code panicked while cases were being generated: %v", r),
+						Note:   "panic outside a guarded call; case index " + fmt.Sprint(len(ctx.cases))})
+				}
+			}()
+			gen(ctx)
+		}()
 	}
 
 	// Model run.
